@@ -117,7 +117,15 @@ pub fn output_tokens(
     let method_items = out_trait
         .fns
         .iter()
-        .map(|trait_fn| gen_delegation_method(trait_fn, generic_idents, &attr, contains_async));
+        .map(|trait_fn| {
+            gen_delegation_method(
+                trait_fn,
+                &where_clause.trait_with_arguments(),
+                generic_idents,
+                &attr,
+                contains_async,
+            )
+        });
 
     let out = quote! {
         #trait_def
@@ -284,6 +292,7 @@ fn gen_impl_delegation_trait_defs(
 
 fn gen_delegation_method<'s>(
     trait_fn: &'s TraitFn,
+    trait_with_arguments: &impl ToTokens,
     generic_idents: &'s GenericIdents,
     attr: &'s EntraitTraitAttr,
     contains_async: ContainsAsync,
@@ -306,6 +315,11 @@ fn gen_delegation_method<'s>(
         })
         .collect();
     let core = &generic_idents.crate_idents.core;
+    // `&Impl<T>` -> `&T`. Fully qualified: a method named `as_ref` / `borrow` of some
+    // other trait in scope at the invocation must not be a candidate.
+    let inner = quote! {
+        <Self as ::#core::convert::AsRef<#impl_t>>::as_ref(self)
+    };
 
     match (&attr.impl_trait, &attr.delegation_kind) {
         (Some(ImplTrait(_, impl_trait_ident)), Some(SpanOpt(Delegate::ByTrait(_), _))) => {
@@ -352,14 +366,16 @@ fn gen_delegation_method<'s>(
             trait_fn,
             sig: fn_sig.clone(),
             call: quote! {
-                self.as_ref().as_ref().#fn_ident(#(#arguments),*)
+                <#impl_t as ::#core::convert::AsRef<dyn #trait_with_arguments>>::as_ref(#inner)
+                    .#fn_ident(#(#arguments),*)
             },
         },
         (None, Some(SpanOpt(Delegate::ByRef(RefDelegate::Borrow), _))) => DelegatingMethod {
             trait_fn,
             sig: fn_sig.clone(),
             call: quote! {
-                self.as_ref().borrow().#fn_ident(#(#arguments),*)
+                <#impl_t as ::#core::borrow::Borrow<dyn #trait_with_arguments>>::borrow(#inner)
+                    .#fn_ident(#(#arguments),*)
             },
         },
         _ => {
@@ -381,7 +397,7 @@ fn gen_delegation_method<'s>(
                     }
                 } else {
                     quote! {
-                        self.as_ref().#fn_ident(#(#arguments),*)
+                        #inner.#fn_ident(#(#arguments),*)
                     }
                 },
             }
